@@ -7,6 +7,7 @@ from typing import List
 
 from harness.lib.core import VERIF, Ctx, lean_lock, run_driver, shrink_ops
 from harness.extract import filesystem as x_fs
+from harness.extract import fsxlate as x_fsm
 from harness.rigs import filesystem as rig
 
 MANIFEST = {
@@ -20,14 +21,20 @@ MANIFEST = {
             "creating an existing file or folder is refused or a no-op and nothing raises; no item is ever lost. Tie: request tree, "
             "validators, item verbs, method guards, action request templates and the bodies of create_file/restore_file regenerated "
             "from the source (Gen/FileSystem.lean, obligations C15_gen_*) + differential rig R-fs (bounded-exhaustive, then random) "
-            "on the real FileSystem, directly, under a node, and through the agent actions' form_request.",
-    "note": "C15-specific: health status, scan timers, num_access, sizes and file types are not modelled (no influence on structure "
-            "or response status); Python-API-only entry points (copy_file, move_file, add_file(force=True)) are outside the property's "
-            "quantifier (requests and agent actions) and outside the model; truncated request paths belong to F-1 (C01/C05).",
+            "on the real FileSystem, directly, under a node, and through the agent actions' form_request. Deepened: the Python-API "
+            "entry points (create_file(force), copy_file, move_file, add_file(force), delete_*_by_id, remove_file_by_id) are operations "
+            "of the model too and keep Inv in any interleaving with requests and ticks (move_file under the stated side condition that "
+            "the moved uuid is new to the destination, which the rig checks on the real objects); Folder.restore_file and "
+            "Folder.add_file are translated statement by statement from the source and proved equal to the model; num_access and the "
+            "folder scan countdown are carried in a passive ledger compared on every operation; truncated / over-long / misspelt "
+            "request paths are answered by the model's total `resolve` and compared.",
+    "note": "C15-specific: health status, red-scan timers, sizes and file types are not modelled (no influence on structure "
+            "or response status); cross-folder uuid disjointness is not part of Inv (hypothesis of the move_file theorem); six leaf "
+            "handlers without a validator still raise IndexError on a truncated path (modelled as `raised`; C05's matter).",
     "technique": "Lean 4 invariant proof over an executable file-system model; model tied by regenerated tables and a differential rig",
     "design_ref": "5/C15",
 }
-MODULES = ["PrimaiteModel.Props.C15"]
+MODULES = ["PrimaiteModel.Props.C15", "PrimaiteModel.Props.C15Api"]
 EXE = "drv_c15"
 
 
@@ -88,6 +95,7 @@ def _report(ctx: Ctx, name: str, case: dict):
 def run(ctx: Ctx):
     with lean_lock():
         ctx.extract(x_fs.GEN_NAME, x_fs.emit)
+        ctx.extract(x_fsm.GEN_NAME, x_fsm.emit)
         ctx.prove(MODULES, exes=[EXE], clean=False, leanchecker=ctx.thorough)
     ctx.cov["rule"] = ("case = (surface in {FileSystem.apply_request, Simulation.apply_request under a node, agent-action form_request}, "
                        "folder restore duration in {None,0,1,2,3}, operation sequence); after EVERY operation the response status and the "
@@ -104,9 +112,19 @@ def run(ctx: Ctx):
             ctx.count(f"exhaustive:{fam}:alphabet={len(alpha)}:depth={depth}", len(alpha) ** depth)
             for k, ops in enumerate(rig.exhaustive(alpha, depth)):
                 yield f"exh{fam}{depth}:{k}", {"surface": "fs", "restore_duration": 1 if fam != "B" else None, "ops": ops}
+        depth = ctx.scale(3, 4)
+        ctx.count(f"exhaustive:C:alphabet={len(rig.api_alphabet())}:depth={depth}", len(rig.api_alphabet()) ** depth)
+        for k, ops in enumerate(rig.exhaustive(rig.api_alphabet(), depth)):
+            yield f"exhC{depth}:{k}", {"surface": "fs", "restore_duration": 1, "ops": ops}
         rng = ctx.rng.fork("fs")
         for k in range(ctx.scale(1500, 30000)):
             yield f"gen:{k}", rig.gen_case(rng, max_ops=ctx.scale(30, 60))
+        rng2 = ctx.rng.fork("fs-api")
+        for k in range(ctx.scale(1500, 15000)):
+            yield f"genapi:{k}", rig.gen_case(rng2, max_ops=ctx.scale(30, 60), api=True)
+        rng3 = ctx.rng.fork("fs-churn")
+        for k in range(ctx.scale(1200, 10000)):
+            yield f"churn:{k}", rig.gen_churn_case(rng3)
 
     state = {"agree": 0, "total": 0, "reported": 0, "t_impl": 0.0, "t_model": 0.0}
 
@@ -142,7 +160,7 @@ def run(ctx: Ctx):
                 ctx.count(f"answer:{op[0]}:{s}")
             if ci == cm and not any(verdicts):
                 state["agree"] += 1
-                if name.startswith("gen:"):
+                if name.startswith("gen"):
                     ctx.sample({"case": name, "surface": case["surface"], "lines": lines_all[st + 2:st + 10], "answers": cm[2:10]}, cap=3)
                 continue
             if state["reported"] < 5:  # shrink and report the first few; the rest are counted
